@@ -84,6 +84,12 @@ func (g *ExprGen) Expr(depth int) bx.Expr {
 	}
 }
 
+// AllowKeywordSelectors lets bare keywords (in, not, any, ...) stand as the first part of a
+// selector. Only the differential parser properties (C10, C15, C20) switch it on: there both
+// sides are parsers and PEG ordered choice decides, whereas the round-trip properties need a
+// tree whose rendering is read back unambiguously.
+var AllowKeywordSelectors bool
+
 // usable reports whether a path can be written as a selector.
 func usable(parts []string) bool {
 	if len(parts) == 0 {
@@ -93,7 +99,7 @@ func usable(parts []string) bool {
 	if !bx.Expressible(s) {
 		return false
 	}
-	if bx.Keywords[parts[0]] {
+	if bx.Keywords[parts[0]] && !AllowKeywordSelectors {
 		// a bare keyword in first position is read as an operator by PEG ordered choice in several
 		// contexts (`any in as x {..}`, `not not matches ..`); the exhaustive token enumerations cover those
 		return false
